@@ -630,11 +630,37 @@ Proof.
 Qed.
 
 (* ---- C12 headline 1: the events written are those of the described tree ---- *)
+(* an element value: a tuple with a field called name *)
+Definition is_element_val (r : val) : Prop := exists rfs n, r = VTuple rfs /\ In (b "name", n) rfs.
+
+Lemma root_is_element_iff r : root_is_element r = true <-> is_element_val r.
+Proof.
+  unfold is_element_val. destruct r; cbn [root_is_element]; try (split; [discriminate|intros (? & ? & E & _); discriminate]).
+  split.
+  - intros H. apply existsb_exists in H. destruct H as ([k v] & Hin & Hk). cbn [fst] in Hk.
+    apply bytes_eqb_spec in Hk; subst. eauto.
+  - intros (rfs & n & E & Hin). inversion E; subst. apply existsb_exists. exists (b "name", n). split; auto.
+Qed.
+
+(* an element value that write_node accepts describes exactly one element *)
+Lemma element_val_nodes r evs :
+  root_is_element r = true -> write_node r = XOk evs ->
+  exists name ns attrs kids, nodes_of r = [XElem name ns attrs kids].
+Proof.
+  intros Hr Hw. apply root_is_element_iff in Hr. destruct Hr as (rfs & n & -> & Hin).
+  cbn [write_node] in Hw. unfold write_tuple in Hw. apply xbind_ok in Hw. destruct Hw as (st & Hscan & _).
+  destruct (scan_inv _ _ _ Hscan) as (In1 & _).
+  destruct (in_field_last _ _ _ Hin) as [w Hw]. rewrite Hw in In1.
+  destruct (s_name st) as [nm|]; [|discriminate]. cbn in In1. inversion In1; subst w.
+  rewrite nodes_of_tuple, Hw. eauto.
+Qed.
+
 Lemma to_xml_events d evs :
   to_xml d = Some evs ->
   exists ver enc sa body,
     evs = EStartDoc ver enc sa :: flat_map events_of_node body /\
     forallb ns1 body = true /\
+    (exists name ns attrs kids, body = [XElem name ns attrs kids]) /\
     tree_of_doc d = Some (mkdoc (Some (mkdecl ver (match enc with Some e => e | None => default_enc end) sa)) body).
 Proof.
   unfold to_xml. destruct (to_xml_r d) as [e|] eqn:E; [|discriminate]. intros H; inversion H; subst e; clear H.
@@ -643,20 +669,22 @@ Proof.
   destruct (dscan_inv _ _ Hscan) as (I1 & I2 & I3 & I4).
   destruct (d_root st) as [root|] eqn:Er; [|discriminate].
   apply xbind_ok in E. destruct E as (ver & Hver & E).
+  destruct (root_is_element root) eqn:Hre; [|discriminate]. cbn [negb] in E.
   apply xbind_ok in E. destruct E as (nevs & Hn & E). inversion E; subst evs.
-  exists ver, (d_encoding st), (d_standalone st), (nodes_of root). split; [|split].
+  exists ver, (d_encoding st), (d_standalone st), (nodes_of root). split; [|split; [|split]].
   - f_equal. apply write_node_events; auto.
   - apply nodes_of_ns1.
+  - eapply element_val_nodes; eauto.
   - cbn [tree_of_doc]. rewrite I4, I1, I2, <- I3.
     assert (V : (match option_map VStr (d_version st) with Some (VStr s) => Some s | _ => None end) = d_version st)
       by (destruct (d_version st); reflexivity).
-    rewrite V, Hver. destruct (d_encoding st); reflexivity.
+    rewrite V, Hver, Hre. destruct (d_encoding st); reflexivity.
 Qed.
 
 Theorem doc_to_tree_strong : forall d evs,
   to_xml d = Some evs -> tree_of_events evs = tree_of_doc d.
 Proof.
-  intros d evs H. destruct (to_xml_events _ _ H) as (ver & enc & sa & body & -> & Hb & ->).
+  intros d evs H. destruct (to_xml_events _ _ H) as (ver & enc & sa & body & -> & Hb & _ & ->).
   cbn [tree_of_events]. rewrite <- (app_nil_r (flat_map events_of_node body)), toe_nodes by auto.
   cbn. rewrite app_nil_r, rev_involutive. reflexivity.
 Qed.
@@ -706,7 +734,8 @@ Definition inexpressible (d : val) : Prop :=
     (exists v, In (b "encoding", v) fs /\ is_str v = false) \/    (* an encoding that is not a string *)
     (forall v, ~ In (b "root", v) fs) \/                          (* no root *)
     (exists s, field_last (b "version") fs = Some (VStr s) /\ s <> b "1.0" /\ s <> b "1.1") \/
-    (exists r, field_last (b "root") fs = Some r /\ bad_node r)   (* the root (last one given) is bad *)
+    (exists r, field_last (b "root") fs = Some r /\ ~ is_element_val r) \/   (* the root (last one given) is not an element *)
+    (exists r, field_last (b "root") fs = Some r /\ bad_node r)   (* the root is bad *)
   | _ => True                                                     (* not a tuple *)
   end.
 
@@ -901,15 +930,18 @@ Proof.
       apply xbind_err in E. destruct E as [E|(ver & Hv & E)].
       * apply version_of_err in E. destruct E as (s & Es & N1 & N2). rewrite Es in I1. cbn in I1.
         right; right; right; left. eauto.
-      * apply xbind_err in E. destruct E as [E|(evs & _ & E)]; [|discriminate].
-        right; right; right; right. exists root; split; auto. eapply write_node_err_bad; eauto.
+      * destruct (root_is_element root) eqn:Hre; cbn [negb] in E.
+        2:{ right; right; right; right; left. exists root; split; auto.
+            intros X. apply root_is_element_iff in X. congruence. }
+        apply xbind_err in E. destruct E as [E|(evs & _ & E)]; [|discriminate].
+        right; right; right; right; right. exists root; split; auto. eapply write_node_err_bad; eauto.
   - intros H.
     destruct (dscan fs (mkd None None None None)) as [st|] eqn:Hscan; cbn; auto.
     destruct (dscan_inv _ _ Hscan) as (I1 & I2 & I3 & I4).
     assert (OK : forallb (fun kv => dfield_okb (fst kv) (snd kv)) fs = true)
       by (apply (dscan_ok_iff fs (mkd None None None None)); eauto).
     rewrite forallb_forall in OK.
-    destruct H as [(v & Hin & Hs)|[(v & Hin & Hs)|[H|[(s & Hv & N1 & N2)|(r & Hr & Hb)]]]].
+    destruct H as [(v & Hin & Hs)|[(v & Hin & Hs)|[H|[(s & Hv & N1 & N2)|[(r & Hr & Hne)|(r & Hr & Hb)]]]]].
     + specialize (OK _ Hin). unfold dfield_okb in OK; cbn [fst snd] in OK. litkeys. congruence.
     + specialize (OK _ Hin). unfold dfield_okb in OK; cbn [fst snd] in OK. litkeys. congruence.
     + destruct (d_root st) as [root|] eqn:Er; auto.
@@ -917,6 +949,10 @@ Proof.
     + destruct (d_root st); auto. rewrite Hv in I1. apply opt_map_inj_some in I1.
       destruct I1 as (a & -> & Eq). inversion Eq; subst a. rewrite version_of_bad; auto.
     + rewrite Hr in I4. rewrite <- I4. destruct (version_of (d_version st)); cbn; auto.
+      destruct (root_is_element r) eqn:Hre; cbn; auto.
+      apply root_is_element_iff in Hre. contradiction.
+    + rewrite Hr in I4. rewrite <- I4. destruct (version_of (d_version st)); cbn; auto.
+      destruct (root_is_element r); cbn; auto.
       apply bad_write_node_err in Hb. destruct Hb as [e ->]. reflexivity.
 Qed.
 
@@ -2127,7 +2163,7 @@ Theorem doc_roundtrip : forall d evs t,
   xml_parse (xml_emit evs) = Some (as_written t).
 Proof.
   intros d evs t He Ht Hwf.
-  destruct (to_xml_events _ _ He) as (ver & enc & sa & body & -> & _ & Ht').
+  destruct (to_xml_events _ _ He) as (ver & enc & sa & body & -> & _ & _ & Ht').
   rewrite Ht in Ht'. inversion Ht'; subst t; clear Ht'.
   rewrite <- (xml_text_roundtrip _ Hwf).
   (* the two event lists differ only in how the default encoding is spelled; the emitter
@@ -2649,6 +2685,53 @@ Proof.
   intros d evs. unfold to_xml. destruct (to_xml_r d) as [e|] eqn:E; [|discriminate]. intros H; inversion H; subst e.
   destruct d; try discriminate. cbn [to_xml_r] in E.
   apply xbind_ok in E. destruct E as (st & _ & E). destruct (d_root st); [|discriminate].
-  apply xbind_ok in E. destruct E as (ver & _ & E). apply xbind_ok in E. destruct E as (nevs & Hn & E).
+  apply xbind_ok in E. destruct E as (ver & _ & E). destruct (negb (root_is_element v)); [discriminate|].
+  apply xbind_ok in E. destruct E as (nevs & Hn & E).
   inversion E; subst. cbn [forallb ev_chars_ok]. eapply write_node_chars_ok; eauto.
+Qed.
+
+
+(* ================================================================== *)
+(* Part G: since 02a5024 an accepted document has one element as body, *)
+(* so the round trip needs no hypothesis about the shape of the body   *)
+
+Theorem to_xml_body_element : forall d t,
+  to_xml d <> None -> tree_of_doc d = Some t ->
+  exists name ns attrs kids, x_body t = [XElem name ns attrs kids].
+Proof.
+  intros d t Hne Ht. destruct (to_xml d) as [evs|] eqn:E; [|congruence].
+  destruct (to_xml_events _ _ E) as (ver & enc & sa & body & _ & _ & Hb & Ht').
+  rewrite Ht in Ht'. inversion Ht'; subst t. exact Hb.
+Qed.
+
+Lemma doc_tree_wf_xml_tree_wf t :
+  (exists name ns attrs kids, x_body t = [XElem name ns attrs kids]) ->
+  doc_tree_wf t = true -> xml_tree_wf t = true.
+Proof.
+  intros (name & ns & attrs & kids & Hb). unfold doc_tree_wf, xml_tree_wf. rewrite Hb.
+  cbn [forallb]. rewrite andb_true_r. auto.
+Qed.
+
+Theorem doc_roundtrip_wf : forall d evs t,
+  to_xml d = Some evs -> tree_of_doc d = Some t -> doc_tree_wf t = true ->
+  xml_parse (xml_emit evs) = Some (as_written t).
+Proof.
+  intros d evs t He Ht Hwf. eapply doc_roundtrip; eauto.
+  apply doc_tree_wf_xml_tree_wf; auto. eapply to_xml_body_element; eauto. congruence.
+Qed.
+
+(* tree_of_doc is defined exactly on the documents whose declaration part is acceptable and
+   whose root is an element value *)
+Theorem to_xml_tree_of_doc : forall d, to_xml d <> None -> tree_of_doc d <> None.
+Proof.
+  intros d H. destruct (to_xml d) as [evs|] eqn:E; [|congruence].
+  destruct (to_xml_events _ _ E) as (ver & enc & sa & body & _ & _ & _ & ->). discriminate.
+Qed.
+
+Corollary xml_output_roundtrip_wf : forall d t,
+  tree_of_doc d = Some t -> doc_tree_wf t = true -> to_xml d <> None ->
+  exists out, xml_output d = Some out /\ xml_parse out = Some (as_written t).
+Proof.
+  intros d t Ht Hwf Hne. unfold xml_output. destruct (to_xml d) as [evs|] eqn:E; [|congruence].
+  exists (xml_emit evs). split; [reflexivity|]. eapply doc_roundtrip_wf; eauto.
 Qed.
